@@ -637,17 +637,14 @@ def trimWhitespaceFromFunctionEnd (s : Core) : Core :=
 /-! ### evaluation stack -/
 
 /-- `push_evaluation_stack`: a list value gets its origins from its items' (or
-    initial) origin names; an unknown name or an item without origin is the
-    Rust panic. -/
+    initial) origin names; a name the story does not define contributes nothing. -/
 def pushEval (defs : ListDefs) (s : Core) (o : Obj) : Out Core :=
   match o with
   | .val (.list l) =>
     match l.originNames with
     | none => .panic "ink_list.rs:get_origin_names"
     | some names =>
-      if names.all (fun n => (defs.find n).isSome) then
-        .ok { s with evalStack := .val (.list { l with origins := names }) :: s.evalStack }
-      else .panic "story_state.rs:push_evaluation_stack_list_definition"
+      .ok { s with evalStack := .val (.list { l with origins := names.filter (fun n => (defs.find n).isSome) }) :: s.evalStack }
   | _ => .ok { s with evalStack := o :: s.evalStack }
 
 /-- `pop_evaluation_stack` -/
